@@ -26,13 +26,14 @@ ModelAfter(ev) ==
 (* clauses of C20 evaluated on logged data against the plain-set model *)
 Failed(ev) ==
     LET m2 == ModelAfter(ev) IN
-    {c \in {"len", "iter_members", "iter_once", "contains", "draw_member", "draw_raises",
+    {c \in {"len", "iter_members", "iter_once", "contains", "overlapping_iterations", "draw_member", "draw_raises",
             "absent_remove_raises", "present_remove_raises", "add_raises",
             "drawall_members", "drawall_uniform"} :
         CASE c = "len" -> ev.len # Cardinality(m2)
           [] c = "iter_members" -> SetOf(ev.iter) # m2
           [] c = "iter_once" -> ~NoDup(ev.iter)
           [] c = "contains" -> SetOf(ev.contains) # m2
+          [] c = "overlapping_iterations" -> ev.iter_outer # ev.iter \/ ~ev.inner_full      \* for a in ds: for b in ds: ...
           [] c = "draw_member" -> ev.op = "draw" /\ ev.raised = "" /\ ev.res \notin model
           [] c = "draw_raises" -> ev.op = "draw" /\ ev.raised # "" /\ model # {}
           [] c = "absent_remove_raises" -> ev.op = "remove" /\ ev.arg \notin model /\ ev.raised = ""
